@@ -675,6 +675,13 @@ func (e *Env) evalCall(c *ast.CallExpr) Val {
 			e.fail("elems: element type %s is not string-kinded", st.Elem())
 		}
 		return Val{T: setType(et), L: []Term{e.st.elemsOf([3]Term{v.L[0], v.L[1], v.L[2]})}}
+	case "carried":
+		// carried(T): the loop-carried variable of type T at this loop head (rename-proof)
+		t := e.x.typeOfExpr(arg(0))
+		if v, ok := e.vars["carried:"+typeKey(t)]; ok {
+			return v
+		}
+		e.fail("carried(%s): no unique loop-carried variable of that type here", t)
 	case "prefix":
 		// prefix(s, k): the first k elements of s (s[:k]); for slices of string-kinded values the
 		// element set of the prefix is unfolded one step: elems(s[:k]) == elems(s[:k-1]) ∪ {s[k-1]}
